@@ -38,7 +38,7 @@ ASSUMPTIONS = [
     "policy_freq learn steps",
     "shared/target weights are compared on parameter names (weights), right after the mutation",
 ]
-REQUIRED_COUNTERS = ["agents_checked", "optimizer_param_checks", "shared_network_checks", "learn_probes", "act_probes"]
+REQUIRED_COUNTERS = ["agents_checked", "optimizer_param_checks", "optimizer_lr_checks", "shared_network_checks", "shared_encoder_checks", "learn_probes", "act_probes"]
 CASE_TIMEOUT_S = 1500
 
 _REC = {"on": False, "log": []}
@@ -105,7 +105,12 @@ def cases(tier, seed):
                 }
                 if algo in zoo.HAS_SHARE_ENCODERS:
                     c["share_encoders"] = bool((pi + s) % 2)
+                if probs[4] > 0:
+                    c["lr_only_hp"] = bool((pi + s + zoo.ALL.index(algo)) % 2 == 0) or probs[4] == 1.0
                 out.append(c)
+                if probs[4] == 1.0 and algo in zoo.HAS_SHARE_ENCODERS | {"IPPO", "MATD3"}:
+                    # learners with several networks / groups per learning rate: one more lr-only case with learning first
+                    out.append(dict(c, seed=c["seed"] + 1, learn_between=True, gens=max(2, c["gens"]), share_encoders=not c.get("share_encoders", False)) if algo in zoo.HAS_SHARE_ENCODERS else dict(c, seed=c["seed"] + 1, learn_between=True, gens=max(2, c["gens"])))
     return out
 
 
@@ -224,6 +229,26 @@ def _check_agent(agent, pre, kind, case, rec, gen):
                     if pn not in lt or lt[pn].shape != le[pn].shape or not torch.equal(lt[pn].detach(), le[pn].detach()):
                         rec.violate("shared_network", "weights_differ_from_eval_network_right_after_mutation", site, eval=en, shared=tn, leaf=pn, **ctx)
                         break
+
+    # ---- (c') shared-encoder copies (share_encoders=True): the hook re-pins them at every mutation, so right after
+    # the mutation every network whose encoder holds pinned (non-parameter) tensors shadows the policy's encoder
+    if getattr(a, "share_encoders", False):
+        pol_net = dict(_nets(a, pre["policy"])).get(pre["policy"])
+        if pol_net is not None and hasattr(pol_net, "encoder"):
+            pe = walk.module_leaves(pol_net.encoder)
+            pnames = [n for n, _ in pol_net.encoder.named_parameters()]
+            for attr, v in vars(a).items():
+                for nm, net in _nets(a, attr) if not attr.startswith("_") else []:
+                    if net is pol_net or not hasattr(net, "encoder"):
+                        continue
+                    if any(True for _ in net.encoder.parameters()):
+                        continue  # owns its encoder (actor target): compared as a registry shared network
+                    rec.hit("shared_encoder_checks")
+                    le = walk.module_leaves(net.encoder)
+                    for pn in pnames:
+                        if pn not in le or le[pn].shape != pe[pn].shape or not torch.equal(le[pn].detach(), pe[pn].detach()):
+                            rec.violate("shared_encoder", "pinned_encoder_differs_from_policy_encoder_right_after_mutation", site, network=nm, leaf=pn, **ctx)
+                            break
 
     # ---- (d) architecture sync
     if kind == "arch" and a.mut not in (None, "None"):
@@ -362,6 +387,11 @@ def run_case(case):
     agentops.seed_all(case["seed"])
     try:
         shared_cfg = zoo.tiny_hp_config(algo)
+        if case.get("lr_only_hp"):
+            # only learning rates are configured, so every rl_hp mutation is a learning-rate mutation
+            from agilerl.algorithms.core.registry import HyperparameterConfig
+
+            shared_cfg = HyperparameterConfig(**{k: v for k, v in shared_cfg.config.items() if k.startswith("lr")})
         pop = [zoo.make_agent(algo, case["obs"], index=i, hp_config=shared_cfg, **kw) for i in range(case["pop"])]
     except CaseTimeout:
         raise
